@@ -17,8 +17,8 @@ F0_DEFAULT = 33          # the thread's fresh counter when the history starts: 8
 NAMED_MAX = 1 << 16      # interned names available to the history: $n0 .. $n65535
 
 LANGS = {
-    'Lf': {'f': ('F', 'ss'), 'g': ('G', 'ss'), 'h': ('H', 'sss')},
-    'Lb': {'var': ('Var', 's'), 'app': ('App', 'cc'), 'lam': ('Lam', 'bc'), 'k': ('K', 'ss'), 'u': ('U', 'c'), 'j': ('J', 'ss')},
+    'Lf': {'f': ('F', 'ss'), 'g': ('G', 'ss'), 'h': ('H', 'sss'), 'w': ('W', 'ssss')},
+    'Lb': {'var': ('Var', 's'), 'app': ('App', 'cc'), 'lam': ('Lam', 'bc'), 'k': ('K', 'ss'), 'u': ('U', 'c'), 'j': ('J', 'ss'), 't3': ('T3', 'sss'), 's3': ('S3', 'sss'), 'm3': ('M3', 'sss')},
 }
 
 class Template:
